@@ -37,6 +37,9 @@ func (c04) Gen(rt *rapid.T, thorough bool) any {
 	genProducers(rt, s, maxProd, total, 2)
 	s.Gate = rapid.SampledFrom([]int{0, 1, 1}).Draw(rt, "gate")
 	s.Slow = rapid.SampledFrom([]int{0, 0, 2}).Draw(rt, "slow")
+	for i, n := 0, rapid.IntRange(0, 2).Draw(rt, "nclock"); i < n; i++ {
+		s.Clock = append(s.Clock, rapid.SampledFrom([]int{1, 1500, 61000}).Draw(rt, "clock_ms"))
+	}
 	if rapid.Bool().Draw(rt, "starve") {
 		s.Knobs.Starve = []string{"go@plugin_logger"}
 	}
@@ -52,9 +55,12 @@ func (c04) Run(x *Exec, scn any) {
 		return
 	}
 	sys.gateEnvs(x, true)
+	clockEnvMs(x, s.Clock)
 	subs := make([][]*Sub, len(s.Producers))
 	sys.spawnProducers(x, subs)
-	res := x.Sim.Run(nil)
+	// the phase ends the moment the last producer returns: whatever is still
+	// buffered or in the worker's hand stays there for Stop to deal with
+	res := x.Sim.Run(x.harnessTasksDone)
 	if res.StepCap {
 		o.violate("livelock", "C04/producer-livelock/"+s.Policy, "producers did not finish within the step cap: %+v", res.Blocked)
 		return
